@@ -340,6 +340,20 @@ func c10canonical() []c10case {
 		mk(false, seg, sim.LoginStage{Kind: sim.LoginUser, Text: "login:"}, sim.LoginStage{Kind: sim.LoginSilence, Text: ""})
 		mk(true, seg, sim.LoginStage{Kind: sim.LoginSilence, Text: "Connecting...\n"})
 	}
+	// a passphrase prompt although NO passphrase is configured (encrypted default identity): it is
+	// answered with an empty line, twice at most; ssh then falls back to the password
+	for seg := 0; seg < 2; seg++ {
+		F := sim.LoginStage{Kind: sim.LoginPhrase, Text: "Enter passphrase for key '/home/u/.ssh/id_rsa': "}
+		W := sim.LoginStage{Kind: sim.LoginPass, Text: "admin@host's password: "}
+		mk(true, seg, F, W, shell)
+		out[len(out)-1].phrase = ""
+		mk(true, seg, F, F, F, shell)
+		out[len(out)-1].phrase = ""
+		// failure text and a prompt in the same emission: the failure wins
+		mk(true, seg, W, sim.LoginStage{Kind: sim.LoginErr, Text: "Permission denied, please try again.\nadmin@host's password: "})
+		mk(true, seg, sim.LoginStage{Kind: sim.LoginErr, Text: "@ WARNING: UNPROTECTED PRIVATE KEY FILE! @\nEnter passphrase for key '/x': "})
+		mk(true, seg, W, sim.LoginStage{Kind: sim.LoginErr, Text: "Permission denied (publickey,password).\nrouter#"})
+	}
 	for i := range out {
 		out[i].silent = out[i].plan[len(out[i].plan)-1].Kind == sim.LoginSilence
 	}
@@ -1053,6 +1067,23 @@ func c10check(c *ctx, cases []c10case) {
 		res.Count("outcome:" + o.outcome)
 		if cs.malformed {
 			res.Count("malformed")
+		}
+		askedPhrase, errWithPrompt, userAsked := false, false, false
+		for _, st := range cs.plan {
+			askedPhrase = askedPhrase || st.Kind == sim.LoginPhrase
+			userAsked = userAsked || st.Kind == sim.LoginUser
+			if st.Kind == sim.LoginErr && (strings.Contains(strings.ToLower(st.Text), "password:") || strings.Contains(st.Text, "passphrase for key") || strings.HasSuffix(strings.TrimSpace(st.Text), strings.TrimSpace(cs.prompt))) {
+				errWithPrompt = true
+			}
+		}
+		if askedPhrase && cs.phrase == "" {
+			res.Count("passphrase-prompt-but-none-configured")
+		}
+		if errWithPrompt {
+			res.Count("failure-text-and-prompt-in-one-emission")
+		}
+		if !cs.ssh && !userAsked && !cs.malformed {
+			res.Count("telnet-without-username-prompt")
 		}
 		if cs.silent {
 			res.Count("silence")
